@@ -495,15 +495,24 @@ var errorType = types.Universe.Lookup("error").Type()
 func (s *Sentinels) callMay(cl *ssa.Call, st cellState, depth int) gset {
 	out := gset{}
 	if MatchCC(&cl.Call, ErrWrappers...) {
+		facts := BoolFactsAt(cl)
+		withKills := func(v ssa.Value) gset {
+			m := s.reg(v, st, cl, depth+1)
+			// what the tests dominating the wrap exclude for the wrapped value
+			for _, bf := range facts {
+				s.applyRegKill(m, v, bf)
+			}
+			return m
+		}
 		for _, a := range cl.Call.Args {
-			out = union(out, s.reg(a, st, cl, depth+1))
+			out = union(out, withKills(a))
 			if sl, ok := a.(*ssa.Slice); ok {
 				if arr, ok := sl.X.(*ssa.Alloc); ok && arr.Referrers() != nil {
 					for _, ref := range *arr.Referrers() {
 						if ia, ok := ref.(*ssa.IndexAddr); ok && ia.Referrers() != nil {
 							for _, r2 := range *ia.Referrers() {
 								if sto, ok := r2.(*ssa.Store); ok && sto.Addr == ia {
-									out = union(out, s.reg(sto.Val, st, cl, depth+1))
+									out = union(out, withKills(sto.Val))
 								}
 							}
 						}
